@@ -162,7 +162,7 @@ theorem replaceDoc_shape (pre : List Node) (hd : Node) (post : List Node) (e : F
     (∃ d d' post', post = d :: post' ∧ isDocTQ d = true ∧ isDocTQ d' = true ∧ out = pre ++ hd :: d' :: post') := by
   unfold replaceDoc at h
   rw [getElem?_append_succ] at h
-  cases hnd : newDocOf e.kind e.body0 with
+  cases hnd : newDocOf e.body0 with
   | error x => simp [hnd, bind, Except.bind] at h
   | ok nd =>
     simp only [hnd, bind, Except.bind] at h
